@@ -340,9 +340,9 @@ type viewOfSelf struct {
 	S   []int
 }
 
-var sharedShapes = []struct {
-	name string
-	mk   func() any
+var SharedShapes = []struct {
+	Name string
+	Mk   func() any
 }{
 	{"slice holding a shorter view of itself", func() any { s := make([]any, 2); s[1] = s[:1]; return s }},
 	{"struct whose slice field views its own leading array", func() any { v := &viewOfSelf{Arr: [2]int{1, 2}}; v.S = v.Arr[:]; return v }},
@@ -353,10 +353,10 @@ var sharedShapes = []struct {
 }
 
 func deepShared(c *explore.Ctx) {
-	sh := sharedShapes[c.Choose(len(sharedShapes))]
+	sh := SharedShapes[c.Choose(len(SharedShapes))]
 	depth := []int{0, 998, 999, 1000, 1001, 1100}[c.Choose(6)]
 	wrap := c.Choose(3)
-	v := sh.mk()
+	v := sh.Mk()
 	for i := 0; i < depth; i++ {
 		switch wrap {
 		case 0:
@@ -372,15 +372,15 @@ func deepShared(c *explore.Ctx) {
 	ref := guard(func() ([]byte, error) { return stdjson.Marshal(v) })
 	switch {
 	case seg.pv != nil:
-		c.Fail("deep-shared:panic:"+seg.ps, "Marshal panics for a %s under %d levels: %v", sh.name, depth, seg.pv)
+		c.Fail("deep-shared:panic:"+seg.ps, "Marshal panics for a %s under %d levels: %v", sh.Name, depth, seg.pv)
 	case (seg.err == nil) != (ref.err == nil):
-		c.Fail("deep-shared:error-differs:"+sh.name, "Marshal of a %s under %d levels (wrapper %d): error %v, encoding/json %v", sh.name, depth, wrap, seg.err, ref.err)
+		c.Fail("deep-shared:error-differs:"+sh.Name, "Marshal of a %s under %d levels (wrapper %d): error %v, encoding/json %v", sh.Name, depth, wrap, seg.err, ref.err)
 	case seg.err == nil && !bytes.Equal(seg.b, ref.b):
-		c.Fail("deep-shared:bytes-differ:"+sh.name, "Marshal of a %s under %d levels differs from encoding/json", sh.name, depth)
+		c.Fail("deep-shared:bytes-differ:"+sh.Name, "Marshal of a %s under %d levels differs from encoding/json", sh.Name, depth)
 	}
-	c.NontrivialStr("deepshared", sh.name, fmt.Sprint(depth, wrap))
+	c.NontrivialStr("deepshared", sh.Name, fmt.Sprint(depth, wrap))
 	c.Outcome(fmt.Sprintf("err=%v", ref.err != nil))
-	c.Case(map[string]any{"value": sh.name, "levels": depth, "wrapper": wrap})
+	c.Case(map[string]any{"value": sh.Name, "levels": depth, "wrapper": wrap})
 }
 
 type failingWriter struct{}
